@@ -1143,6 +1143,9 @@ func runC04(c *Ctx) {
 	checkKnownErrorNotAnsweredWithNil(c, "R16")
 	checkConnSendReturnsTheWritersError(c, "R17")
 	checkClosedLatchReadOnlyByTheConnection(c, "R18")
+	checkCloseReportsFailure(c, "R19", isClientSide, 2)
+	// R20 (= C08.O13): a read that failed is the last one — a receiver that retries a sticky error spins and no call ever fails
+	checkFailedReadIsFinal(c, "R20", 8)
 
 	// ---------- R8 no client lock is leaked: a later call would hang ----------
 	checkLockBalance(c, "R8", func(fn *ssa.Function) bool { return !isServerSide(fn) && outermost(fn).Package() == p.Sftp }, 15)
